@@ -545,7 +545,10 @@ pub fn random_edit(prop: &str, rng: &mut Rng, world: &mut World) -> Option<J> {
                     let i = *rng.pick(&real_steps);
                     let s = &mut world.proj.steps[i];
                     let desc;
-                    if !s.oos.is_empty() && rng.chance(1, 2) {
+                    // an order-only edge to a generated file that the command also reports as a
+                    // dependency is what gives that dependency its ordering path: keep it
+                    let reported: Vec<String> = s.extra_reads.iter().map(|r| canon_ref(r)).collect();
+                    if !s.oos.is_empty() && !reported.contains(&s.oos[0]) && rng.chance(1, 2) {
                         let f = s.oos.remove(0);
                         desc = format!("{} order-only {}", s.id, f);
                     } else if !s.imps.is_empty() {
@@ -678,6 +681,21 @@ fn history_case(ctx: &Ctx, dir: &std::path::Path, case: u64, seed: u64, rep: &mu
         if !cands.is_empty() {
             let i = *rng.pick(&cands);
             proj.steps[i].effect = if rng.chance(1, 2) { Effect::NoOutput } else { Effect::SomeOutputs(1) };
+        }
+    }
+    if prop == "C08" {
+        // records with several outputs, so that moves can split them in many ways
+        for i in 0..proj.steps.len() {
+            if !proj.steps[i].phony && rng.chance(1, 2) {
+                for k in 0..rng.range(1, 3) {
+                    let o = format!("m{}_{}", i, k);
+                    if rng.chance(1, 2) {
+                        proj.steps[i].outs.push(o);
+                    } else {
+                        proj.steps[i].iouts.push(o);
+                    }
+                }
+            }
         }
     }
     let gens = if prop == "C17" { make_generations(&mut proj, &mut rng) } else { vec![] };
